@@ -156,7 +156,7 @@ CHECKS["C10"] = (
     "sequence, any batch counts, any starting state): all child keys ever handed out are pairwise distinct and fresh; the parent stream is read "
     "in pairwise disjoint segments. Tie (a): tools/rng_scan.py proves on the current source that every draw goes through rng / self.rng, no numpy "
     "or Python global random function is used, prior.sample / pm.draw / the helpers receive the generator, run_worker spawns one child per task "
-    "(9 rules, fail-closed). Tie (b): every entry point x option path is run twice with equal seeds under different global seeds (bit-identical "
+    "(10 rules, fail-closed). Tie (b): every entry point x option path is run twice with equal seeds under different global seeds (bit-identical "
     "required, global state untouched), serial vs 2-process pool, and the recorded spawn protocol (keys handed out, keys each task generator was "
     "built from) is compared by Coq with the model.",
     "Trusted: Coq kernel + vm_compute; numpy's SeedSequence.spawn contract (distinct keys = independent streams); pymc.draw(random_seed=rng); the "
